@@ -2054,6 +2054,9 @@ def get_exec(repo, ms, registry):
         if getattr(ms, 'exec_class', None) == 'monitor':
             from .monitor import MonitorExec
             _execs[k] = MonitorExec(repo, ms, registry)
+        elif getattr(ms, 'exec_class', None) == 'struct':
+            from .structs import StructExec
+            _execs[k] = StructExec(repo, ms, registry)
         else:
             _execs[k] = Exec(repo, ms, registry)
     return _execs[k]
@@ -2061,6 +2064,9 @@ def get_exec(repo, ms, registry):
 
 def verify_contract(ex, c):
     """dispatch: ordinary function contract or monitor method"""
+    if getattr(c, 'struct', None):
+        from .structs import verify_struct
+        return verify_struct(ex, c)
     mon = getattr(c, 'monitor', None)
     if mon:
         import importlib
